@@ -834,7 +834,10 @@ class Summaries:
             tgt.entries = drop_key(tgt.entries)
             if tgt.base is not None:
                 # the base may or may not have held the key: it becomes a different opaque map
-                tgt.base = z3.Const(ex.fresh_name("pmap"), opaque_sort("rpds::RedBlackTreeMap"))
+                # (named after base and key, so that the two runs of a relational lemma get the same map)
+                kid = cell_ident(ex, key) or canon(ex, key)
+                nm = "pmap_remove(%s,%s)" % (tgt.base, kid) if kid is not None else ex.fresh_name("pmap")
+                tgt.base = z3.Const(nm, opaque_sort("rpds::RedBlackTreeMap"))
             if meth == "remove":
                 return tgt
             return Bool(z3.BoolVal(True)) if len(tgt.entries) < n0 and tgt.base is None else Bool(z3.Bool(ex.fresh_name("removed")))
